@@ -42,7 +42,8 @@ RULE = ("tie P (program capture): for every (graph | grid shape) x argument-form
 TRUSTED = [
     "reading of the property: 'induce a connected subgraph' = Graph/GraphModel.v::connected (walks through active "
     "vertices), 'induce a tree' = connected and #(edges with two distinct active endpoints, parallel edges counted "
-    "twice) + 1 = #active (Graph/Avc.v::tree); validated on every run against graphcap.is_connected / is_tree "
+    "twice) + 1 = #active (Graph/Avc.v::tree; proved equivalent to 'connected and every induced edge between two "
+    "distinct vertices is a bridge of the induced subgraph', Props/C04.v::tree_iff_bridges); validated on every run against graphcap.is_connected / is_tree "
     "written independently in Python",
     "Core/Expr.v::eval as the meaning of the posted trees (n-ary ADD, IF, LT/NE/LE/GE/EQ, binary AND, IMP); z3 "
     "(search only) as the decision procedure for the really posted program",
